@@ -311,6 +311,12 @@ where
         &self.inner.load_throttle_switch
     }
 
+    /// Number of write-queue table shards whose lock is currently held (verification hook).
+    #[cfg(feature = "verif")]
+    pub fn verif_keeper_locked_shards(&self) -> usize {
+        self.inner.keeper.verif_locked_shards()
+    }
+
     /// If the disk cache is enabled.
     pub fn is_enabled(&self) -> bool {
         self.inner.engine.type_id() != TypeId::of::<Arc<NoopEngine<K, V, P>>>()
